@@ -117,6 +117,12 @@ func (rlc *RoundLifecycle) MarkCatchingUp() {
 	rlc.PrevoteHashCh = nil
 	rlc.PrecommitHashCh = nil
 	rlc.CommitWaitElapsed = true
+
+	// There is no live round view while catching up;
+	// this is what IsReplaying reports on.
+	// Without clearing it, a state machine that had a live view in an earlier round
+	// would keep handling events as if its stale step still applied.
+	rlc.VRV = nil
 }
 
 func (rlc RoundLifecycle) IsReplaying() bool {
